@@ -6,11 +6,13 @@ Line driver for C20.
     B <bx> <oracle> <keys>      Block.Deserialization on a source holding <bx> (BlockFromRawBytes)
     H <bx> <keys>               Header.Deserialization (HeaderFromRawBytes)
     M <hash,hash,...|->         ComputeMerkleRoot
+    R <bx>                      RawHeader.Deserialization
+    X <bx>                      CrossChainMsg.Deserialization
 
 `<oracle>` as for C19.  `<keys>`: `-` or `;`-separated `blob=canon` entries (`blob==` when the blob is its own
 canonical encoding): what keypair.DeserializePublicKey/SerializePublicKey say about a bookkeeper blob; a blob that is
-not listed is not a key.  The as-shipped and the sound variant are both run; when they differ the line is
-`asShipped ## sound`.
+not listed is not a key.  All three variants of the model (as shipped, count handling repaired, sound) are run; the
+distinct outputs are joined by ` ## `.
 -/
 namespace OntVerif.Driver.C20
 open OntVerif.Util OntVerif.Model.Codec OntVerif.Model.Tx OntVerif.Model.Block OntVerif.Model.TxSha256
@@ -44,7 +46,15 @@ def resW {α : Type} (f : α → String) : Res α → String
   | .err e => errW e
   | .panic => "PANIC"
 
-def both (a b : String) : String := if a == b then a else a ++ " ## " ++ b
+def joinDistinct (outs : List String) : String := " ## ".intercalate outs.eraseDups
+
+def variants : List Variant := [.asShipped, .countFixed, .sound]
+
+def rawHeaderW (h : RawHeader) : String := s!"height={h.height} payload={hexL h.payload}"
+
+def ccmW (m : CCMsg) : String :=
+  let sg := if m.sigData.isEmpty then "-" else ",".intercalate (m.sigData.map hexW)
+  s!"v={m.version.toNat} height={m.height} root={hexW m.statesRoot} re={hexL (serCCMsg m)} hash={hexOf (sha256d ([m.version] ++ writeUintN 4 m.height ++ m.statesRoot))} sigs={sg}"
 
 def handle (line : String) : String :=
   match fields line with
@@ -53,14 +63,22 @@ def handle (line : String) : String :=
     | some bs, some tbl, some kt =>
       let R := mkRlp tbl
       let K := mkKeys kt
-      both (resW blockW (parseBlock .asShipped K R hashes ⟨bs, 0⟩)) (resW blockW (parseBlock .sound K R hashes ⟨bs, 0⟩))
+      joinDistinct (variants.map fun V => resW blockW (parseBlock V K R hashes ⟨bs, 0⟩))
     | _, _, _ => "bad-op"
   | ["H", bx, ks] =>
     match unbx bx, parseKeys ks with
     | some bs, some kt =>
       let K := mkKeys kt
-      both (resW headerW (parseHeader .asShipped K ⟨bs, 0⟩)) (resW headerW (parseHeader .sound K ⟨bs, 0⟩))
+      joinDistinct (variants.map fun V => resW headerW (parseHeader V K ⟨bs, 0⟩))
     | _, _ => "bad-op"
+  | ["R", bx] =>
+    match unbx bx with
+    | some bs => joinDistinct (variants.map fun V => resW rawHeaderW (parseRawHeader V ⟨bs, 0⟩))
+    | none => "bad-op"
+  | ["X", bx] =>
+    match unbx bx with
+    | some bs => joinDistinct (variants.map fun V => resW ccmW (parseCCMsg V ⟨bs, 0⟩))
+    | none => "bad-op"
   | ["M", hs] =>
     if hs == "-" then hexOf (computeMerkleRoot hashes.node []) else
     match (hs.splitOn ",").mapM unhex with
